@@ -129,7 +129,8 @@ Check == /\ ~done /\ done' = TRUE /\ UNCHANGED tid
                    THEN (IF ~(G.nc = G.n /\ G.nl = G.n /\ G.nu = G.n /\ (G.ncols = G.n \/ G.ncols = -1)) THEN "size"
                          ELSE IF ~LabelRangeOK THEN "label_range" ELSE IF ~StepOK THEN "step_on_grid" ELSE IF ~BoundsOK THEN "bounds_nan"
                          ELSE IF ~UnmappedInertOK THEN "unmapped_inert" ELSE IF ~NodalOK THEN "nodal_rows" ELSE "")
-                   ELSE IF Tr.mode = "fix" THEN (IF ~LabelRangeOK THEN "label_range" ELSE IF FixOK THEN "" ELSE "fix_window")
+                   ELSE IF Tr.mode = "fix" THEN (IF ~LabelRangeOK THEN "label_range" ELSE IF ~StepInWindowOK THEN "step_in_window"
+                                                 ELSE IF FixOK THEN "" ELSE "fix_window")
                    ELSE IF ~SizeOK THEN "size" ELSE IF ~LabelRangeOK THEN "label_range" ELSE FirstFailed
 Spec == Init /\ [][Check]_vars
 Mark == TLCSet(tid, IF ~done THEN TLCGet(tid) ELSE IF why = "" THEN <<1, "accepted">> ELSE <<1, why>>)
